@@ -145,8 +145,10 @@ def main(argv: list[str]) -> int:
             known_hits[hit["mech"]][1] += 1
         else:
             new_v.append(v)
-    for mech, (hit, n, v) in sorted(known_hits.items()):
-        print("KNOWN-FINDING: property=%s %s [mech=%s, %d witness(es) this run]" % (pid, hit["what"], mech, n))
+    for kf in sorted(known, key=lambda k: k["mech"]):
+        n = known_hits.get(kf["mech"], [None, 0])[1]
+        print("KNOWN-FINDING: property=%s %s [mech=%s, %s]" % (pid, kf["what"], kf["mech"],
+                                                              "%d witness(es) this run" % n if n else "not exercised by this run's sample"))
 
     rdir = os.path.join(OUT, "replays", pid)
     seen_mech: Counter = Counter()
